@@ -373,6 +373,11 @@ theorem hv_queueMaxStreamId {s s' : State} {b : Bool} (h : s.queueMaxStreamId = 
     rw [← h.1]
     try rfl
 
+theorem hv_queueMaxIf {s s' : State} {c : Bool} (h : s.queueMaxIf c = some s') : s'.hv = s.hv := by
+  rcases queueMaxIf_cases h with rfl | ⟨b, hq⟩
+  · rfl
+  · exact hv_queueMaxStreamId hq
+
 theorem hv_queueStopSending (s : State) (c : Bool) (id code : Nat) :
     (s.queueStopSending c id code).hv = s.hv := by
   unfold State.queueStopSending; split <;> rfl
